@@ -1,7 +1,7 @@
 """C12 — instruction read/write information: table / database agreement clauses (DESIGN.md section 3 / C12)."""
 import re
 from lib import regen, core, cfg, nametables
-from lib import x86db
+from lib import x86db, x86rm
 from checks.C17 import load_a64_db
 
 
@@ -52,8 +52,8 @@ def run(chk):
     chk.rule(R2, "for every x86 database form with a relative register operand (`k+1`, `xmm+3`): in both RW records of the instruction the lead "
                  "operand's RWInfoOp.consecutive_lead_count equals the length of the run and each follower carries OpRWFlags::kConsecutive")
     UX = "asmjit/x86/x86instdb.cpp"
-    fx = chk.facts(UX, tables=r"asmjit::x86::InstDB::(rw_info_index_a_table|rw_info_index_b_table|rw_info_a_table|rw_info_b_table|rw_info_op_table)$",
-                   enums=r"asmjit::x86::Inst::Id$|asmjit::OpRWFlags$")
+    fx = chk.facts(UX, tables=r"asmjit::x86::InstDB::(rw_info_index_a_table|rw_info_index_b_table|rw_info_a_table|rw_info_b_table|rw_info_op_table|rw_info_rm_table)$",
+                   enums=r"asmjit::x86::Inst::Id$|asmjit::OpRWFlags$|asmjit::x86::InstDB::RWInfoRm::(Category|Flags)$|asmjit::x86::InstDB::RWInfo::Category$")
     TX = fx["tables"]
     for t in ("rw_info_index_a_table", "rw_info_index_b_table", "rw_info_a_table", "rw_info_b_table", "rw_info_op_table"):
         chk.need("asmjit::x86::InstDB::" + t in TX and "value" in TX["asmjit::x86::InstDB::" + t], "%s not dumped" % t)
@@ -98,9 +98,14 @@ def run(chk):
     db_lead_names = {n for (n, _) in seen}
     chk.ob(R2, "x86|lead-only-for-runs", used_by <= db_lead_names, loc=UX, detail="instructions %s report a consecutive lead but have no run in the database" % sorted(used_by - db_lead_names)[:6])
 
+    # ---------------------------------------------------------------- C12.c register-or-memory information
+    x86rm.run(chk, fx)
+
     return chk.finish(
         level="other",
         explanation=("Table/database agreement clauses: the RW, flag, feature and rm tables regenerate byte-identically from db/ with the "
                      "repository's generator; every AArch64 mnemonic with a register-run form carries the consecutive flag (and vice versa); "
-                     "x86 forms with relative register operands report the run's lead count and follower flags in both RW records. "
+                     "x86 forms with relative register operands report the run's lead count and follower flags in both RW records; "
+                     "every operand the rm table flags as replaceable by memory has a database form with a memory operand of the prescribed size "
+                     "for each all-register form (31 known findings: the information is kept per instruction id, not per form). "
                      "Does not decide what the CPU reads/writes or which features it needs."))
